@@ -10,14 +10,16 @@ Structures(n) == {K \in [0..(n-1) -> SUBSET (0..(n-1))] : \A s \in 0..(n-1) : K[
 VARIABLES n, K, li
 Init == /\ n \in 1..MaxN
         /\ K \in Structures(n)
-        /\ li \in {x \in 1..(Len(Catalogue) + Len(Oracles)) : x % Parts = Part}
+        /\ li \in {x \in 1..(Len(Catalogue) + Len(Oracles) + Len(Substitutions)) : x % Parts = Part}
 Next == UNCHANGED <<n, K, li>>
 St == 0..(n-1)
 Args == [{"S", "T", "R"} -> SUBSET St]
 LawHolds ==
   IF li <= Len(Catalogue)
   THEN \A D \in Args : Holds(Catalogue[li], K, St, D)
-  ELSE \A D \in Args : OracleHolds(Oracles[li - Len(Catalogue)], K, St, D)
-Export == JsonSerialize(IOEnv.LAWS_OUT, [laws |-> Catalogue, oracles |-> Oracles])
+  ELSE IF li <= Len(Catalogue) + Len(Oracles)
+  THEN \A D \in Args : OracleHolds(Oracles[li - Len(Catalogue)], K, St, D)
+  ELSE \A D \in Args : SubstHolds(Substitutions[li - Len(Catalogue) - Len(Oracles)], K, St, D)
+Export == JsonSerialize(IOEnv.LAWS_OUT, [laws |-> Catalogue, oracles |-> Oracles, substs |-> Substitutions])
 ASSUME Export
 =============================================================================
